@@ -49,6 +49,19 @@ def main(argv):
             if not isinstance(mrust, list) or not idl or idl.get("status") != "ok":
                 run.hist("model_status", "decode-failed")
                 continue
+            # theorem decode_full_exact: hypothesis on this layout (decidable), and the statement evaluated on every
+            # input of the run the reference decoder accepts: the reference-mode encoder writes the input back
+            hyp = co.model(i, T, [{"k": "len", "v": {}}])
+            exactwf = bool(isinstance(hyp, list) and hyp[0].get("exactwf"))
+            run.hist("theorem_hypotheses", "exactWfBody:%s" % exactwf)
+            if exactwf:
+                acc = [(s, mi["value"]) for (_, s), mi in zip(uniq, idl["out"]) if mi.get("r") == "ok"]
+                back = co.mdl.ask({"op": "wire", "type": T, "mode": "ideal", "cases": [{"k": "enc", "v": v} for _, v in acc]}, timeout=300) if acc else None
+                for (s, v), eb in zip(acc, (back or {}).get("out", [])):
+                    run.count("theorem_instances")
+                    if eb.get("r") != "ok" or eb.get("hex") != s.hex():
+                        run.violation("corr", "theorem decode_full_exact contradicted by evaluation on %s (model bug)" % T,
+                                      {"pdl": d["text"], "type": T, "input_hex": s.hex(), "corr": "thm:decode_full_exact"}, found_input=False)
             accepted = []
             for (kind, s), mr, mi in zip(uniq, mrust, idl["out"]):
                 r = wc.impl(i, T, "decfull", s.hex())
